@@ -410,7 +410,7 @@ class FactoryFunctorPool(FunctorPool):
             self.verbose = verbose
 
         def run(self) -> None:
-            while not self.stop_event.is_set():
+            while True:
                 replace_id = self.pool._replace_queue.get()
                 if replace_id is None:
                     break
